@@ -141,6 +141,60 @@ def T2(ctx, mods=None):
     return n
 
 
+def T6(ctx, mods=None):
+    """Recency selection: where a pending action is dependent with several kinds of earlier access (several slots), the one
+    returned must be the most recent in *execution order* - chosen through a marker that set_last_access maintains (or the
+    accesses' path positions) - not through a happens-before comparison (concurrent accesses are unordered, and exactly
+    those are the races DPOR must see)."""
+    prog = ctx.prog
+    n = 0
+    for mod in (mods or KINDS):
+        t = dependence_table(ctx, mod)
+        if t is None:
+            continue
+        lda = t["state"] + "::last_dependent_access"
+        sla = t["state"] + "::set_last_access"
+        body = prog.fns[lda].body
+        inst = prog.ident(lda)
+        act, al = _action_enum(prog, lda)
+        variants = dict((name, val) for (val, name) in (enum_variants(prog, act) if act else []))
+        for a in t["actions"]:
+            if len(t["reads"][a]) < 2:
+                continue
+            n += 1
+            if a in variants and al is not None:
+                reached, _ = PEval(body, assume_enum_value(body.local_name(al) or "action", variants[a], a)).run()
+            else:
+                reached = body.reachable()
+            markers, causal = set(), []
+            for b in sorted(reached):
+                tm = body.term(b)
+                if tm["k"] == "call":
+                    k = prog.callee_key(prog.insts[inst].calls.get(b, {}))
+                    if k in ("rt::access::Access::happens_before",) or (k.startswith("rt::vv::VersionVec::") and k.split("::")[-1] in ("partial_cmp", "le", "lt", "ge", "gt")) \
+                            or k.endswith("PartialOrd::partial_cmp") or k.endswith("PartialOrd::le") or k.endswith("PartialOrd::lt"):
+                        causal.append(b)
+                if tm["k"] == "call" and callee_path(tm) == "std::option::Option::<T>::as_ref":
+                    for (e, pol, v, sb) in guard_atoms(body, b):
+                        for x in subexprs(e):
+                            if x[0] == "field" and x[3] == t["state"] and x[2] not in t["reads"][a]:
+                                markers.add(x[2])
+                            if x[0] == "field" and x[3] == "rt::access::Access" and x[2] == "path_id":
+                                markers.add("path_id")
+            maintained = {m for m in markers if m == "path_id" or any(w["fn"] == sla for w in prog.writers().get((t["state"], m), []))}
+            if causal:
+                ctx.bad("T6", t["state"], "a pending %s chooses between its dependent slots %s by a happens-before comparison: accesses that are "
+                        "concurrent (the races to explore) are unordered, so the most recent conflicting access can be dropped" %
+                        (a, sorted(t["reads"][a])), site_str(prog, lda, causal[0]), detail="%s-causal" % a)
+            elif maintained:
+                ctx.ok("T6", "%s:%s" % (t["state"], a), "most recent of %s selected via %s maintained by set_last_access" %
+                       (sorted(t["reads"][a]), sorted(maintained)), [prog.fns[lda].loc()])
+            else:
+                ctx.bad("T6", t["state"], "a pending %s is dependent with slots %s but nothing maintained by set_last_access selects the most "
+                        "recent of them" % (a, sorted(t["reads"][a])), prog.fns[lda].loc(), detail="%s-unselected" % a)
+    return n
+
+
 # required conflicts (hand-written commutation tables from the semantics of each primitive)
 REQUIRED = {
     "rt::atomic": [("Load", "Store"), ("Load", "Rmw"), ("Store", "Store"), ("Store", "Rmw"), ("Rmw", "Rmw")],
@@ -583,6 +637,8 @@ def run_all(ctx, which):
             T4(ctx)
         elif w == "T5":
             T5(ctx)
+        elif w == "T6":
+            ctx.floor("T6", T6(ctx), 1, "Arc Inspect (inc / dec slots)")
         elif w == "V1":
             V1(ctx)
         elif w == "V2":
